@@ -74,6 +74,11 @@ class Lib:
             nm = 'pair_%s_%s' % (a.mangle(), b.mangle())
             self.gen_once(nm, 'DEF_PAIR(%s, %s, %s)' % (nm, a.c, b.c))
             return TI('pair', nm, args=[a, b], name=s)
+        m = re.match(r'^(?:std::)?tuple_element<(\d+), (?:const )?std::tuple<(.*)>>::type$', s)
+        if m:
+            parts = split_top(m.group(2))
+            if int(m.group(1)) < len(parts):
+                return em.T(parts[int(m.group(1))])
         m = re.match(r'^(?:std::)?tuple_element<(\d+), (.*)>::type$', s)
         if m:
             outer = em.T(m.group(2))
@@ -128,7 +133,12 @@ class Lib:
         t = qt(n)
         if 'error' in t or 'errc' in t:
             return self.ec_const(em, n['referencedDecl']['name'])
-        return None
+        # any other library enumerator: a named constant, distinct from the other
+        # enumerators met (only equality is meaningful)
+        nm = 'LIBENUM_' + sanitize(em.short_type(t)) + '_' + sanitize(n['referencedDecl']['name'])
+        if nm not in em.lib_enums:
+            em.lib_enums.append(nm)
+        return nm
 
     def global_ref(self, em, n):
         nm = n['referencedDecl'].get('name')
@@ -224,6 +234,8 @@ class Lib:
             if len(args) == 0:
                 return 'sv_empty_view()'
             real = [a for a in args if a.get('kind') != 'CXXDefaultArgExpr']
+            if len(real) == 1 and self._strlit(real[0]) is not None:
+                return self.sv_literal(em, self._strlit(real[0]))
             if len(real) == 2 and em.T(qt(real[0])).kind == 'it' and em.T(qt(real[1])).kind == 'it':
                 # std::string(first, last): requires [first,last) to be a valid range
                 return 'str_from_range(%s, %s)' % (em.e(real[0]), em.e(real[1]))
@@ -244,8 +256,8 @@ class Lib:
         nm = 'svlit_%d' % k
         body = lit[1:-1]
         n = len(bytes(body, 'utf-8').decode('unicode_escape'))
-        if k >= 8:
-            raise Unsupported('more than 8 string literals bound to string_views')
+        if k >= 32:
+            raise Unsupported('more than 32 string literals bound to string_views')
         self.gen_once(nm, 'DEF_SV_LITERAL(%s, %s, %d, %d)' % (nm, lit, n, k))
         em.global_init.insert(0, 'svlit_tab[%d] = %s;' % (k, lit))
         return '%s()' % nm
@@ -254,6 +266,13 @@ class Lib:
     def call(self, em, n, rd, full, cnode, args):
         name = (rd or {}).get('name')
         if name in ('move', 'forward') and len(args) == 1:
+            x = args[0]
+            while x.get('kind') in ('ParenExpr', 'ImplicitCastExpr'):
+                x = x['inner'][0]
+            if name == 'move' and x.get('kind') == 'UnaryOperator' and x.get('opcode') == '*' and x['inner'][0].get('kind') == 'CXXThisExpr' and em.opaque_ok:
+                # std::move(*this): the operation hands itself to its next continuation
+                em.uses_moved_self = True
+                return '(*(g_moved_self++, %s))' % em.e(x['inner'][0])
             return em.e(args[0])
         if name == 'make_pair' and len(args) == 2:
             ti = em.T(qt(n))
